@@ -169,8 +169,16 @@ def run(repo, chk):
                "tank-level controls are evaluated before the solve (with back-tracking to the threshold) and after it", loc(ci))
     chk.floor("R-C05-3", 10)
 
+    # ---------------------------------------------------------------- R-C05-4 firing order of triggered controls
+    # tank-level / pressure controls are pre-and-post-solve: among the controls triggered in one step the scheduler must take the one
+    # whose threshold is crossed FIRST (largest partial step) and let priority decide only among equal instants; post-solve lists are
+    # priority ordered (shared implementation with R-C04-3)
+    from .c04 import sort_order_rules
+    sort_order_rules(repo, chk, "R-C05-4")
+
 
 WITNESSES = [
+    dict(name="presolve-priority-before-time", file=CORE, old="        presolve_controls_to_run.sort(key=lambda i: i[1], reverse=True)\n", new="        presolve_controls_to_run.sort(key=lambda i: (i[0]._priority, -i[1]))\n", rule="R-C05-4"),
     dict(name="save-before-change-test", file=CORE, old="            self._run_postsolve_controls()\n            self._run_feasibility_controls()\n            if self._change_tracker.changes_made(ref_point='graph'):",
          new="            self._run_postsolve_controls()\n            self._run_feasibility_controls()\n            if isinstance(self._report_timestep, str):\n                wntr.sim.hydraulics.save_results(self._wn, node_res, link_res)\n            if self._change_tracker.changes_made(ref_point='graph'):", rule="R-C05-1"),
     dict(name="no-continue", file=CORE, old="                    break\n                continue\n", new="                    break\n", rule="R-C05-1"),
